@@ -101,6 +101,84 @@ def cmd_import(out_dir, prefix, prop):
         json.dump(meta, open(os.path.join(d, "meta.json"), "w"), indent=1)
 
 
+REFACTORS = os.path.join(ROOT, "refactors")
+
+
+def cmd_import_refactors(out_dir, prefix):
+    """Behaviour-preserving refactorings written by independent sub-agents: kept if the suite still passes."""
+    os.makedirs(REFACTORS, exist_ok=True)
+    for patch in sorted(glob.glob(os.path.join(out_dir, "patch*.diff"))):
+        n = re.search(r"patch(\d+)\.diff", patch).group(1)
+        note = os.path.join(out_dir, f"note{n}.txt")
+        rid = f"{prefix}-{n}"
+        tmp = scratch_repo()
+        try:
+            ap = subprocess.run(["git", "apply", "--whitespace=nowarn", patch], cwd=tmp, capture_output=True, text=True)
+            if ap.returncode != 0:
+                print(f"{rid}: patch does not apply: {ap.stderr.strip()[:200]}")
+                continue
+            passed, failed, tail = run_suite(tmp)
+        finally:
+            shutil.rmtree(tmp, ignore_errors=True)
+        ok = passed == 143 and not failed
+        print(f"{rid}: suite: {tail} -> {'KEPT' if ok else 'REJECTED'}")
+        if not ok:
+            continue
+        d = os.path.join(REFACTORS, rid)
+        os.makedirs(d, exist_ok=True)
+        shutil.copy(patch, os.path.join(d, "patch.diff"))
+        json.dump({"id": rid, "kind": "behaviour-preserving refactoring (independent sub-agent)", "note": open(note).read().strip() if os.path.exists(note) else "", "suite_with_change": tail}, open(os.path.join(d, "meta.json"), "w"), indent=1)
+
+
+def _detect_refactor(rid):
+    from ovldlint.report import run_property
+    from ovldlint.rules import PROPS, rules_for
+
+    d = os.path.join(REFACTORS, rid)
+    tmp = tempfile.mkdtemp(prefix="ovld-seed-")
+    try:
+        shutil.copytree(os.path.join(REPO, "src"), os.path.join(tmp, "src"))
+        subprocess.run(["git", "init", "-q"], cwd=tmp)
+        ap = subprocess.run(["git", "apply", "--whitespace=nowarn", os.path.join(d, "patch.diff")], cwd=tmp, capture_output=True, text=True)
+        if ap.returncode != 0:
+            return rid, None, {"apply": [ap.stderr.strip()[:200]]}
+        res, outs = {}, {}
+        for p in PROPS:
+            rules = rules_for(p)
+            if rules is None:
+                continue
+            buf = []
+            rc = run_property(p, "thorough", rules, out=buf.append, root=tmp, evdir=os.path.join(tmp, "ev"), selfval=False)
+            if rc != 0:
+                res[p] = rc
+                outs[p] = [l for l in buf if "VIOLATION" not in l and "KNOWN-FINDING" not in l and not l.startswith(p + " ")]
+        return rid, res, outs
+    finally:
+        shutil.rmtree(tmp, ignore_errors=True)
+
+
+def cmd_run_refactors(args):
+    verbose = "-v" in args
+    ids = [a for a in args if not a.startswith("-")] or sorted(os.listdir(REFACTORS))
+    ids = [i for i in ids if os.path.isdir(os.path.join(REFACTORS, i))]
+    with mp.Pool(16) as pool:
+        results = pool.map(_detect_refactor, ids)
+    bad = 0
+    for rid, res, outs in results:
+        if res is None:
+            print(f"{rid:16} patch no longer applies")
+            continue
+        fired = sorted(p for p, rc in res.items() if rc == 1)
+        errs = sorted(p for p, rc in res.items() if rc == 2)
+        bad += bool(fired or errs)
+        print(f"{rid:16} fire={','.join(fired) or '-'} err={','.join(errs) or '-'}  {'FALSE-ALARM' if fired or errs else 'silent'}")
+        if verbose or fired or errs:
+            for p, ls in outs.items():
+                for l in ls:
+                    print(f"      {p}: {l[:260]}")
+    print(f"{len(results)} refactorings, {bad} with an alarm")
+
+
 def _detect(sid):
     from ovldlint.report import run_property
     from ovldlint.rules import PROPS, rules_for
@@ -119,7 +197,7 @@ def _detect(sid):
             if rules is None:
                 continue
             buf = []
-            rc = run_property(p, "thorough", rules, out=buf.append, root=tmp, evdir=os.path.join(tmp, "ev"))
+            rc = run_property(p, "thorough", rules, out=buf.append, root=tmp, evdir=os.path.join(tmp, "ev"), selfval=False)
             if rc != 0:
                 res[p] = rc
                 outs[p] = [l for l in buf if "VIOLATION" not in l and "KNOWN-FINDING" not in l and not l.startswith(p + " ")]
@@ -175,7 +253,11 @@ def cmd_table():
 
 
 if __name__ == "__main__":
-    if len(sys.argv) >= 2 and sys.argv[1] == "table":
+    if len(sys.argv) >= 4 and sys.argv[1] == "import-refactors":
+        cmd_import_refactors(sys.argv[2], sys.argv[3])
+    elif len(sys.argv) >= 2 and sys.argv[1] == "run-refactors":
+        cmd_run_refactors(sys.argv[2:])
+    elif len(sys.argv) >= 2 and sys.argv[1] == "table":
         cmd_table()
     elif len(sys.argv) >= 5 and sys.argv[1] == "import":
         cmd_import(sys.argv[2], sys.argv[3], sys.argv[4])
